@@ -14,6 +14,8 @@ def json_to_py(j):
             return {json_to_py(k): json_to_py(v) for k, v in zip(ks, vs)}
         if 'a' in j and str(j['a']).startswith('float:'):
             return float(j['a'][6:])
+        if 'app' in j and j['app'][0] == '$list':
+            return [json_to_py(x) for x in j['app'][1]]
         raise ValueError(j)
     return j
 
